@@ -719,6 +719,9 @@ class Formatter:
         This function iterates all elements of this array and dispatch the formatting
         according to the element's type.
         """
+        if t.nbits() == 0:
+            # Nothing to process (an array of empty messages).
+            return []
         t_ = t.element_type
         l: List[str] = []
         for index in range(t.cap):
@@ -766,6 +769,10 @@ class Formatter:
         This function iterates the message fields and dispatches the formatting process
         accaccording to the field's type.
         """
+        if t.nbits() == 0:
+            # Nothing to process (a message of empty messages): walking it
+            # would cost time exponential in the depth of such messages.
+            return []
         l: List[str] = []
         for field in t.sorted_fields():
             chain_ = self.format_op_mode_field_name_chain(chain, field)
